@@ -245,6 +245,11 @@ func genCase(mode string) func(t *rapid.T) Case {
 			}
 		case "polygon":
 			rp := gen.DrawRings(t, "p", 3, maxInt(8, maxN/2))
+			if rapid.IntRange(0, 3).Draw(t, "manyrings") == 0 {
+				// more than 12 loops: Polygon.Edge then goes through the
+				// cumulative-edges search instead of the linear one
+				rp = gen.DrawRings(t, "pm", 16, 10)
+			}
 			c.Rings = rp.Rings
 			ctr := rp.Center.Pt()
 			scale = scaleOf(ctr, rp.Rings[0])
